@@ -74,6 +74,19 @@ def main():
             res['detected'], res['missed'], res['silent_on_refactors'], res['false_alarms_on_refactors'], res['stale'], res['wall_s']))
         for e in res['patches']:
             print('     %-45s %s' % (e['id'], e['verdict']))
+    if '--replay' in sys.argv:
+        # re-evaluate only the recorded instance on the current tree (evidence files are left untouched)
+        rp = json.load(open(sys.argv[sys.argv.index('--replay') + 1]))
+        hits = [o for o in rep.obligations if o['rule'] == rp['rule'] and o['key'] == rp['key']]
+        if not hits:
+            print('replay: instance %s/%s no longer exists on the current tree' % (rp['rule'], rp['key']))
+            sys.exit(0)
+        bad = [o for o in hits if not o['ok']]
+        for o in hits:
+            print('replay: rule=%s instance=%s at %s: %s -> %s' % (o['rule'], o['key'], o.get('where'), o['detail'], 'HOLDS' if o['ok'] else 'VIOLATED'))
+        if bad:
+            print('VIOLATION property=%s replay=%s' % (pid, sys.argv[sys.argv.index('--replay') + 1]))
+        sys.exit(1 if bad else 0)
     rc = rep.finish(all_stats, ','.join(fdirs))
     sys.exit(rc)
 
